@@ -2,6 +2,7 @@ package main
 
 import (
 	"fmt"
+	"go/ast"
 	"go/constant"
 	"go/token"
 	"go/types"
@@ -22,6 +23,9 @@ type Engine struct {
 	inlineMax   int
 	docSamples  []string
 	mapSortMemo map[string]string
+	inst        map[string][]*ssa.Function // generic contract key -> instantiations used by the program
+	effMemo     map[*ssa.Function]*effectSet
+	effDone     map[*ssa.Function]bool
 	activeProp  string // when set, only clauses serving this property are used (assumed and checked)
 }
 
@@ -66,6 +70,7 @@ type retSite struct {
 	vals  []Val
 	where string
 	block *ssa.BasicBlock
+	dup   bool // produced by tail duplication: reach is already a single path
 }
 
 type loopInfo struct {
@@ -103,6 +108,8 @@ type Frame struct {
 	modAll     bool
 	noFrame    bool
 	splitWhere []string
+	inDup      bool
+	dbg        map[string]ssa.Value // source names of plain SSA values (from DebugRef)
 }
 
 func (f *Frame) where(pos token.Pos) string {
@@ -134,6 +141,8 @@ func (en *Engine) typeFacts(t types.Type, e string, now string) string {
 			implies(eq(pref(e), "0"), eq(e, nilPtr)))
 	case *types.Map:
 		return and(app("<=", "0", e), app("<", e, now))
+	case *types.Interface:
+		return en.closedWorld(t, tt, e)
 	}
 	return "true"
 }
@@ -255,8 +264,25 @@ func (f *Frame) mergeHeaps(conds []string, heaps []*Heap) *Heap {
 		}
 	}
 	if !sameGen {
-		// some path havocked everything: result is unknown everywhere
-		f.vc.havocAll(res)
+		// some path havocked everything: merge every component known so far by ite; components
+		// first mentioned later start unknown in a new generation
+		f.vc.nfresh++
+		res.gen = f.vc.nfresh
+		for _, k := range append([]string{}, f.vc.compOrd...) {
+			es := f.vc.comps[k]
+			if (es == "MapDom" || es == "MapVal") && f.vc.mapSorts[k] == "" {
+				continue
+			}
+			vals := make([]string, len(heaps))
+			for i, h := range heaps {
+				vals[i] = f.vc.cur(h, k, es)
+			}
+			n := f.vc.fresh(strings.Trim(k, "|"), f.vc.fullSort(k, es))
+			for i := range vals {
+				f.vc.assume(implies(conds[i], eq(n, vals[i])))
+			}
+			res.ver[k] = n
+		}
 	} else {
 		keys := map[string]bool{}
 		for _, h := range heaps {
@@ -278,12 +304,12 @@ func (f *Frame) mergeHeaps(conds []string, heaps []*Heap) *Heap {
 				res.ver[k] = vals[0]
 				continue
 			}
-			t := vals[len(vals)-1]
-			for i := len(vals) - 2; i >= 0; i-- {
-				t = ite(conds[i], vals[i], t)
-			}
+			// cond_i ==> merged == version_i: on a given path congruence closure identifies the
+			// merged array with that path's version (quantified facts then match directly)
 			n := f.vc.fresh(strings.Trim(k, "|"), f.vc.fullSort(k, es))
-			f.vc.assume(eq(n, t))
+			for i := range vals {
+				f.vc.assume(implies(conds[i], eq(n, vals[i])))
+			}
 			res.ver[k] = n
 		}
 	}
@@ -305,6 +331,9 @@ func (f *Frame) mergeHeaps(conds []string, heaps []*Heap) *Heap {
 		}
 		res.now = f.vc.define("now", "Int", t)
 	}
+	if !sameGen {
+		res.genNow = res.now
+	}
 	return res
 }
 
@@ -312,6 +341,23 @@ func (f *Frame) mergeHeaps(conds []string, heaps []*Heap) *Heap {
 func (f *Frame) run(reach0 string, heap0 *Heap) {
 	order := f.rpo()
 	f.findLoops(order)
+	if f.depth == 0 {
+		f.vc.reach = map[int]map[int]bool{}
+		// forward reachability ignoring back edges, in reverse RPO
+		for i := len(order) - 1; i >= 0; i-- {
+			b := order[i]
+			m := map[int]bool{b.Index: true}
+			for _, s := range b.Succs {
+				if s.Dominates(b) {
+					continue // back edge
+				}
+				for k := range f.vc.reach[s.Index] {
+					m[k] = true
+				}
+			}
+			f.vc.reach[b.Index] = m
+		}
+	}
 	f.end = map[*ssa.BasicBlock]*blockState{}
 	if f.regs == nil {
 		f.regs = map[*ssa.Alloc]*regCell{}
@@ -319,6 +365,12 @@ func (f *Frame) run(reach0 string, heap0 *Heap) {
 	for bi, b := range order {
 		var reach string
 		var heap *Heap
+		if f.depth == 0 {
+			f.vc.curBlk = b.Index
+		}
+		if bi > 0 && f.tailDuplicate(b) {
+			continue
+		}
 		if bi == 0 {
 			reach, heap = reach0, heap0.clone()
 		} else {
@@ -461,7 +513,7 @@ func (f *Frame) derefAddr(p Val) *Addr {
 	pt, ok := p.T.Underlying().(*types.Pointer)
 	if !ok {
 		f.vc.errorf("deref of non-pointer %v", p.T)
-		return &Addr{Base: p.E, Comp: "|E ?|", CompT: types.Typ[types.Int], LeafT: types.Typ[types.Int]}
+		return &Addr{Base: p.E, Comp: q("E ?"), CompT: types.Typ[types.Int], LeafT: types.Typ[types.Int]}
 	}
 	et := pt.Elem()
 	return &Addr{Base: p.E, Comp: f.en.u.cellComp(et), CompT: et, LeafT: et}
@@ -558,7 +610,7 @@ func (f *Frame) load(p Val, h *Heap, reach string, pos token.Pos) Val {
 		}
 	}
 	v := f.en.mkVal(lt, f.vc.define(f.prefix+"ld", f.en.u.sortOf(lt), t))
-	f.vc.assume(implies(reach, f.en.typeFacts(lt, v.E, h.now)))
+	f.vc.assume(implies(reach, f.en.typeFacts(lt, v.E, f.vc.boundOf(h, a.Comp))))
 	f.sigRead(a, v, reach, pos)
 	return v
 }
@@ -603,9 +655,9 @@ func (f *Frame) store(p Val, v Val, h *Heap, reach string, pos token.Pos) {
 func (f *Frame) nilCheck(base, reach string, pos token.Pos) {
 	if strings.HasPrefix(base, "(mkptr ") {
 		r := pref(base)
-		if strings.HasPrefix(r, "|") || strings.HasPrefix(r, "(- ") {
+		if !strings.HasPrefix(r, "(") || strings.HasPrefix(r, "(- ") {
 			// freshly allocated or global: never nil
-			if strings.Contains(r, "ref#") || strings.HasPrefix(r, "(- ") {
+			if strings.Contains(r, "ref!") || strings.HasPrefix(r, "(- ") {
 				return
 			}
 		}
@@ -622,6 +674,9 @@ func (f *Frame) check(kind, goal string, pos token.Pos, src string) {
 }
 
 func (f *Frame) execBlock(b *ssa.BasicBlock, reach string, heap *Heap) {
+	if f.depth == 0 {
+		f.vc.curBlk = b.Index
+	}
 	for _, ins := range b.Instrs {
 		if _, ok := ins.(*ssa.Phi); ok {
 			continue
@@ -641,6 +696,12 @@ func (f *Frame) execInstr(ins ssa.Instruction, reach string, h *Heap) string {
 	vc := f.vc
 	switch i := ins.(type) {
 	case *ssa.DebugRef:
+		if id, ok := i.Expr.(*ast.Ident); ok && !i.IsAddr {
+			if f.dbg == nil {
+				f.dbg = map[string]ssa.Value{}
+			}
+			f.dbg[id.Name] = i.X
+		}
 	case *ssa.Alloc:
 		et := i.Type().(*types.Pointer).Elem()
 		f.env[i] = f.alloc(et, i.Comment, reach, h)
@@ -712,7 +773,7 @@ func (f *Frame) execInstr(ins ssa.Instruction, reach string, h *Heap) string {
 		for _, r := range i.Results {
 			vals = append(vals, f.val(r))
 		}
-		f.rets = append(f.rets, retSite{reach: reach, heap: h.clone(), vals: vals, where: f.where(i.Pos()), block: i.Block()})
+		f.rets = append(f.rets, retSite{reach: reach, heap: h.clone(), vals: vals, where: f.where(i.Pos()), block: i.Block(), dup: f.inDup})
 	case *ssa.Panic:
 		f.check("nopanic.panic", not(reach), i.Pos(), "explicit panic reachable")
 		reach = "false"
@@ -1156,7 +1217,7 @@ func (en *Engine) astWfAssumed(from types.Type, pt *types.Pointer) bool {
 // the sigreads directive every read of Token.TokenType must see a token that is neither
 // whitespace nor a comment.
 func (f *Frame) sigRead(a *Addr, v Val, reach string, pos token.Pos) {
-	if !f.top || f.ct == nil || f.ct.SigReadProps == nil || a.Comp != "|H ast.Token.TokenType|" || reach == "false" {
+	if !f.top || f.ct == nil || f.ct.SigReadProps == nil || a.Comp != q("H ast.Token.TokenType") || reach == "false" {
 		return
 	}
 	if f.en.activeProp != "" && !hasProp(f.ct.SigReadProps, f.en.activeProp) {
@@ -1183,4 +1244,120 @@ func (en *Engine) constOf(pkg, name string) (string, bool) {
 	}
 	n, ok := constant.Int64Val(c.Val())
 	return num(n), ok
+}
+
+// virtualPred is an edge through which control reaches a join block, looking through blocks
+// that hold only phis and a jump.
+type virtualPred struct {
+	cond string
+	heap *Heap
+	env  map[ssa.Value]Val
+}
+
+func trivialJoin(b *ssa.BasicBlock) bool {
+	if len(b.Succs) != 1 || len(b.Preds) < 2 {
+		return false
+	}
+	for _, ins := range b.Instrs {
+		switch ins.(type) {
+		case *ssa.Phi, *ssa.Jump, *ssa.DebugRef:
+		default:
+			return false
+		}
+	}
+	return true
+}
+
+// virtualPreds enumerates the edges into b; env maps the phis of b (and of the looked-through
+// blocks) to their values on that edge.
+func (f *Frame) virtualPreds(b *ssa.BasicBlock, depth int) ([]virtualPred, bool) {
+	var out []virtualPred
+	for pi, p := range b.Preds {
+		if f.end[p] == nil {
+			continue
+		}
+		var sub []virtualPred
+		if trivialJoin(p) && f.loops[p] == nil && depth < 16 {
+			s, ok := f.virtualPreds(p, depth+1)
+			if !ok {
+				return nil, false
+			}
+			sub = s
+		} else {
+			sub = []virtualPred{{cond: f.edgeCond(p, b), heap: f.end[p].heap, env: map[ssa.Value]Val{}}}
+		}
+		for _, vp := range sub {
+			env := map[ssa.Value]Val{}
+			for k, v := range vp.env {
+				env[k] = v
+			}
+			for _, ins := range b.Instrs {
+				phi, ok := ins.(*ssa.Phi)
+				if !ok {
+					break
+				}
+				e := phi.Edges[pi]
+				if v, ok := vp.env[e]; ok {
+					env[phi] = v
+				} else {
+					env[phi] = f.val(e)
+				}
+			}
+			out = append(out, virtualPred{cond: vp.cond, heap: vp.heap, env: env})
+		}
+		if len(out) > 64 {
+			return nil, false
+		}
+	}
+	return out, true
+}
+
+// tailDuplicate executes a returning join block once per incoming edge instead of merging the
+// states (path-sensitive postconditions: no ite over heaps in the obligations).
+func (f *Frame) tailDuplicate(b *ssa.BasicBlock) bool {
+	if f.loops[b] != nil || len(b.Preds) < 2 || len(b.Instrs) == 0 || len(b.Instrs) > 12 {
+		return false
+	}
+	if _, ok := b.Instrs[len(b.Instrs)-1].(*ssa.Return); !ok {
+		return false
+	}
+	for _, ins := range b.Instrs {
+		switch ins.(type) {
+		case *ssa.Call, *ssa.Store, *ssa.MapUpdate, *ssa.Alloc:
+			return false
+		}
+	}
+	vps, ok := f.virtualPreds(b, 0)
+	if !ok || len(vps) < 2 {
+		return false
+	}
+	f.inDup = true
+	for _, vp := range vps {
+		for k, v := range vp.env {
+			f.env[k] = v
+		}
+		f.execBlock(b, vp.cond, vp.heap.clone())
+	}
+	f.inDup = false
+	return true
+}
+
+// closedWorld: a value of an interface type declared in the repository is nil or holds one of
+// the concrete types that the program boxes into interfaces and that implement it
+// (assumption "closed world of implementations", recomputed from the loaded program each run).
+func (en *Engine) closedWorld(t types.Type, it *types.Interface, e string) string {
+	n, ok := t.(*types.Named)
+	if !ok || n.Obj().Pkg() == nil || !en.u.repoPkgs[n.Obj().Pkg().Path()] || it.NumMethods() == 0 {
+		return "true"
+	}
+	bk := append([]string{}, en.u.boxedOrd...)
+	sort.Strings(bk)
+	ds := []string{eq(e, "inil")}
+	for _, k := range bk {
+		bt := en.u.boxed[k]
+		if types.Implements(bt, it) {
+			ds = append(ds, app("(_ is "+en.u.boxName(bt)+")", e))
+		}
+	}
+	return or(ds...)
 }
